@@ -18,6 +18,10 @@ class Unsupported(AnalysisError):
     pass
 
 
+import types as _t
+_MPT = _t.MappingProxyType
+
+
 class _Return(Exception):
     def __init__(self, value):
         self.value = value
@@ -561,7 +565,7 @@ class MiniEval:
                     return r
             if isinstance(recv, str) and f.attr in SAFE_STR_METHODS:
                 return getattr(recv, f.attr)(*args, **kwargs)
-            if isinstance(recv, dict) and f.attr in ('items', 'keys', 'values', 'get'):
+            if isinstance(recv, (dict, _MPT)) and f.attr in ('items', 'keys', 'values', 'get'):
                 return getattr(recv, f.attr)(*args, **kwargs)
             if isinstance(recv, (set, frozenset)) and f.attr in ('union', 'intersection', 'difference', 'issubset', 'copy'):
                 return getattr(recv, f.attr)(*args, **kwargs)
@@ -619,6 +623,13 @@ def module_constants(mod) -> dict:
     literals, and expressions over constants defined earlier in the module (dict(_PAIRS), frozenset(_A) | {...}, ...)."""
     from .loader import const_eval
     consts: dict = {}
+    import types as _types
+    wrappers: dict = {}  # read-only views: `from types import MappingProxyType [as X]`
+    for node in mod.tree.body:
+        if isinstance(node, ast.ImportFrom) and node.module == 'types':
+            for al in node.names:
+                if al.name == 'MappingProxyType':
+                    wrappers[al.asname or al.name] = _types.MappingProxyType
     for node in mod.tree.body:
         if isinstance(node, ast.Assign) and len(node.targets) == 1 and isinstance(node.targets[0], ast.Name):
             name, val = node.targets[0].id, node.value
@@ -634,10 +645,11 @@ def module_constants(mod) -> dict:
         if any(isinstance(x, (ast.Lambda, ast.Await, ast.Yield)) for x in ast.walk(val)):
             continue
         calls = [x for x in ast.walk(val) if isinstance(x, ast.Call)]
-        if any(not (isinstance(c.func, ast.Name) and c.func.id in ('dict', 'frozenset', 'set', 'tuple', 'list', 'sorted', 'len', 'max', 'min', 'range')) for c in calls):
+        if any(not (isinstance(c.func, ast.Name) and (c.func.id in ('dict', 'frozenset', 'set', 'tuple', 'list', 'sorted', 'len', 'max', 'min', 'range')
+                                                          or c.func.id in wrappers)) for c in calls):
             continue
         try:
-            consts[name] = MiniEval(dict(consts)).expr(val, {})
+            consts[name] = MiniEval({**consts, **wrappers}).expr(val, {})
         except Exception:  # noqa: BLE001 - not a constant expression
             continue
     return consts
